@@ -640,7 +640,9 @@ class HistModel:
         pipe = mk.pipeline({"photon_collection": [(F_IMG, "load_image", {"image_file": path})],
                             "charge_collection": [("vp.probes.rec_buckets", "after", {})]})
         obs = Observation(parameters=[ParameterValues(key="pipeline.photon_collection.load_image.arguments.image_file",
-                                                      values=[path, other])],
+                                                      # (a sweep takes text / numbers: a pathlib.Path is refused by
+                                                      #  ParameterValues itself - the swept values are given as text)
+                                                      values=[os.fspath(path), os.fspath(other)])],
                           mode="sequential", readout=mk.readout([1.0]),
                           **({"working_directory": working_directory} if working_directory else {}))
         pyxel.run_mode(obs, det, pipe)
